@@ -152,9 +152,26 @@ def out_case(t, tr, how, mixed, n):
     return c
 
 
+def accept_error_case(t, tr, how, n):
+    """history prefix `an accept() that failed` (descriptor exhaustion while a client was queued): close()/drop must
+    still stop the listener, free the port / REMOVE THE IPC FILE, and end the connections"""
+    peer = netgen.PEER[t]
+    ops = [f"sock 1 {t}", f"bind 1 {tr}", "rawconn 1 ep#0", f"rawhs 1 {peer}", "rawwait 1 hs",
+           "fdhoard", "fdrelease 1", "rawconn 2 ep#0", "pause 100", "fdrelease all", f"rawhs 2 {peer}", "rawwait 2 hs",
+           "close 1" if how == "close" else "dropsock 1", "probegone ep#0", "rawwait 1 eof", "rawwait 2 eof"]
+    c = Case(f"{t}:{how}:net-{tr}-accept-error#{n}", "net", ops, [f"net-{how}"])
+    c.expect = ("net", t, ["accepted"], how)
+    return c
+
+
 def cases(tier, rng):
     out = gen.corpus(ID)
     n = 0
+    for t in (["PULL", "PUB"] if tier == "quick" else netgen.TYPES9):
+        for tr in [x for x in netgen.transports() if x in ("tcp4", "ipc")]:
+            for how in ("close", "drop"):
+                out.append(accept_error_case(t, tr, how, n))
+                n += 1
     for t in (["PULL", "PUB", "DEALER", "REQ", "SUB"] if tier == "quick" else netgen.TYPES9):
         for tr in [x for x in netgen.transports() if x in ("tcp4", "ipc")]:
             for how in ("close", "drop"):
